@@ -404,6 +404,14 @@ func (s *vSession) buildMsg(spec string) ([]byte, error) {
 		setters = append(setters, AttrControlling(tb))
 	case "d":
 		setters = append(setters, AttrControlled(tb))
+	case "cd", "dc":
+		// BOTH role attributes in one message (tb goes with ICE-CONTROLLING, tb2 with ICE-CONTROLLED), in either order
+		tb2, _ := strconv.ParseUint(m["tb2"], 10, 64)
+		if m["role"] == "cd" {
+			setters = append(setters, AttrControlling(tb), AttrControlled(tb2))
+		} else {
+			setters = append(setters, AttrControlled(tb2), AttrControlling(tb))
+		}
 	}
 	if p, ok := m["prio"]; ok && p != "-" {
 		n, _ := strconv.ParseUint(p, 10, 32)
